@@ -66,7 +66,10 @@ Inductive rdata :=
 | RAdd (r1 r2 : rdata)
 | RMul (r1 r2 : rdata)
 | RNeg (r : rdata)
-| RInv (r : rdata).
+| RInv (r : rdata)
+| RSqrt (r : rdata)
+| RPowQ (p a : Q)                               (* p ^ a for p > 0 *)
+| RLog2 (r : rdata).
 
 Fixpoint rden (r : rdata) : R :=
   match r with
@@ -88,6 +91,9 @@ Fixpoint rden (r : rdata) : R :=
   | RMul r1 r2 => rden r1 * rden r2
   | RNeg r' => - rden r'
   | RInv r' => / rden r'
+  | RSqrt r' => sqrt (rden r')
+  | RPowQ p a => Rpower (Q2R p) (Q2R a)
+  | RLog2 r' => log2 (rden r')
   end.
 
 (* ------------------------------------------------------------------------------------------ *)
